@@ -36,6 +36,16 @@ def chainGoneL (rm : List String) : Kids → Bool
      | _ => false) || chainGone rm t || chainGoneL rm r
 end
 
+/- what survives a trip through the Newick writer and reader: shape, child order, names, comments,
+   lengths, supports; parent positions and branch ids are reset (fidelity figure of the CLI tier) -/
+mutual
+def normIO : T → T
+  | .node d _ k => .node d 0 (normIOL k)
+def normIOL : Kids → Kids
+  | [] => []
+  | (e, t) :: r => ({ e with id := 0, pval := NIL }, normIO t) :: normIOL r
+end
+
 /-- the observation `obs_C06` of a tree (DESIGN §4.2) -/
 structure Obs where
   tips : List String
@@ -68,13 +78,13 @@ def judge (extraTags : List String) (rev : Bool) (names : List String) (before :
   let k := kept before names rev
   let rm := toRemove before names rev
   let big := k.length ≥ 3
-  -- a tip that is the root may be removed like any other (0cfc52b); when it is kept the root stays a
-  -- tip, which the clauses about the root degree do not cover: those cases are tie-only
+  -- hypotheses of the theorems (Proofs: removeTips_*_roottip): unique tips, no single-child inner node,
+  -- ≥ 3 tips kept; the root may be a tip, kept or removed (0cfc52b)
   let rootTipRemoved := rootTip && rm.contains before.name
-  let hyp := uniq && nos && (!rootTip || rootTipRemoved) && big
+  let hyp := uniq && nos && big
   let rootKidRemoved := before.kids.any fun et => et.2.isLeaf && rm.contains et.2.name
-  let tags0 := extraTags ++ tagIf uniq "uniq" ++ tagIf nos "nosingle" ++ tagIf (!nos) "singles" ++ tagIf rootTip "roottip" ++ tagIf rootTipRemoved "roottip-removed" ++
-    tagIf lok "lens-ok" ++ tagIf big "kept>=3" ++ tagIf (!big) "small" ++ tagIf hyp "hyp" ++
+  let tags0 := extraTags ++ tagIf uniq "uniq" ++ tagIf nos "nosingle" ++ tagIf (!nos) "singles" ++ tagIf rootTip "roottip" ++ tagIf rootTipRemoved "roottip-removed" ++ tagIf (rootTip && !rootTipRemoved) "roottip-kept" ++
+    tagIf lok "lens-ok" ++ tagIf (goodNames before) "good-names" ++ tagIf big "kept>=3" ++ tagIf (!big) "small" ++ tagIf hyp "hyp" ++
     tagIf before.rooted "rooted" ++ tagIf (!before.rooted) "unrooted" ++ tagIf (maxDeg before ≥ 4 || (before.rooted && maxDeg before ≥ 3)) "multif" ++
     tagIf rev "revert" ++ tagIf (names.any fun n => !before.tipNames.contains n) "absent-names" ++
     tagIf rm.isEmpty "nothing-removed" ++ tagIf (chainGone rm before) "chain" ++ tagIf rootKidRemoved "root-child" ++ tagIf (rootKidRemoved && before.rooted) "rooted-loses-root-child" ++ tagIf (cladeGone rm before) "clade-or-cherry" ++
@@ -87,7 +97,9 @@ def judge (extraTags : List String) (rev : Bool) (names : List String) (before :
     | none => bad "C06: after dump"
     | some after =>
       let suppressed := before.size - after.size > rm.length
+      let inj := sidesInj (after.usplitsAll.map (·.side))
       let tags := tags0 ++ tagIf (suppressed && !rm.isEmpty) "nontrivial" ++ tagIf suppressed "suppression" ++
+        tagIf inj "sides-inj" ++ tagIf (!inj) "sides-look-alike" ++
         tagIf (after.name != before.name || after.kids.length != before.kids.length) "root-changed" ++
         tagIf (!nos && !rootTip && after.kids.length == 1) "single-root-left"
       -- oracle
@@ -102,7 +114,7 @@ def judge (extraTags : List String) (rev : Bool) (names : List String) (before :
         else if !hyp then none
         else if !(splitsOK before names rev after) then some "splits are not the non-trivial restrictions"
         else if lok && !(distOK before names rev after) then some "a path length between remaining tips changed"
-        else if !(noSingleAfter before after) then some "a single-child / degree-2 node is left behind"
+        else if !(noSingleAfterR before names rev after) then some "a single-child / degree-2 node or a wrong root is left behind"
         else if lok && !(dataOK before names rev after) then some "merged branch data (length sum / support max) wrong"
         else if !(tipSupOK before after) then some "a tip branch received a support"
         else none
@@ -126,7 +138,9 @@ def judge (extraTags : List String) (rev : Bool) (names : List String) (before :
           else ⟨.tie, tags, "model fails with " ++ errName e ++ ", implementation succeeds"⟩
         | .ok (mt, mix) =>
           let exact := mt.dump == after.dump
-          let tags := tags ++ tagIf exact "exact" ++ tagIf (!exact) "inexact"
+          let exactIO := (normIO mt).dump == (normIO after).dump
+          let tags := tags ++ tagIf exact "exact" ++ tagIf (!exact) "inexact" ++
+            tagIf (!exact && exactIO) "exact-up-to-io" ++ tagIf (!exact && !exactIO) "order-or-data-differs"
           if !big && obs mt != obs after then ⟨.pass, "obs-differs-degenerate" :: tags, ""⟩
           else if obs mt != obs after then ⟨.tie, tags, "model differs on: " ++ diffObs (obs mt) (obs after) ++ " model " ++ mt.dump⟩
           else match ixo with
@@ -204,6 +218,51 @@ def handle (op : String) (f : List String) : Verdict :=
           | some m, .pass => ⟨.tie, v.tags, m⟩
           | _, _ => v
     | _, _, _, _, _, _, _ => bad "C06.cli fields"
+  | "run", [revs, hasF, fnamess, hasC, cdump, randoms, _seed, argss, dumps, exits, nouts, mode] =>
+    match parseBool revs, parseBool hasF, parseStrList fnamess, parseBool hasC, randoms.toInt?, parseStrList argss,
+      (splitTerm "|" dumps).mapM T.undump, nouts.toNat? with
+    | some rev, some hf, some fnames, some hc, some random, some args, some refs, some nout =>
+      let comp : Option (Option T) := if hc then (T.undump cdump).map some else some none
+      match comp with
+      | none => bad "C06.run comp dump"
+      | some comp =>
+        let flags : PruneFlags := ⟨if hf then some fnames else none, comp, random, args, rev⟩
+        let failed := exits != "0"
+        let tags := ["run", "run-" ++ mode] ++ tagIf (refs.length ≥ 2) "several-trees"
+        match flags.source with
+        | .random =>
+          -- the sampled names are unknown: the number of tips left decides whether the command must succeed
+          let good := refs.all fun ref =>
+            let n := ref.tipNames.length
+            let k := min random.toNat n
+            wfR ref && decide ((if rev then k else n - k) ≥ 3)
+          if good && (failed || nout != refs.length) then
+            ⟨.oracle, tags, "prune --random failed or wrote " ++ toString nout ++ " trees for " ++ toString refs.length⟩
+          else ⟨.pass, tagIf good "nontrivial" ++ tags, ""⟩
+        | _ =>
+          let good := refs.all fun ref => wfR ref && decide (3 ≤ (kept ref (flags.names ref []) rev).length)
+          let (outs, err) := pruneAll flags refs []
+          if good && (failed || nout != refs.length) then
+            ⟨.oracle, "all-good" :: tags, "prune failed or wrote " ++ toString nout ++ " trees for " ++ toString refs.length ++
+              " although every input tree satisfies the hypotheses"⟩
+          else if good && (err.isSome || outs.length != refs.length) then ⟨.tie, tags, "model of the command fails"⟩
+          else if !good && (outs.length != nout || err.isSome != failed) then
+            ⟨.pass, "run-differs-outside-hyp" :: tags, ""⟩
+          else ⟨.pass, tagIf good "all-good" ++ tagIf (good && refs.length ≥ 2) "nontrivial" ++ tags, ""⟩
+    | _, _, _, _, _, _, _, _ => bad "C06.run fields"
+  | "tipfile", [contents, tipss, outcome, removeds] =>
+    match unescape contents, parseStrList tipss, parseStrList removeds with
+    | some content, some tips, some removed =>
+      let names := tipFileNames content
+      let expect := sortStrings (tips.filter names.contains)
+      let tags := ["tipfile"] ++ tagIf (content.contains '\r') "crlf" ++ tagIf (!content.endsWith "\n") "no-final-newline" ++
+        tagIf (names.contains "") "empty-name" ++ tagIf (expect.length ≥ 2) "nontrivial"
+      if outcome != "ok" then
+        (if tips.length - expect.length ≥ 3 then ⟨.tie, tags, "prune -f failed: " ++ outcome⟩ else ⟨.pass, "skip-degenerate" :: tags, ""⟩)
+      else if sortStrings removed != expect then
+        ⟨.tie, tags, "tip file: model reads " ++ showStrList names ++ " the command removed " ++ showStrList removed⟩
+      else ⟨.pass, tags, ""⟩
+    | _, _, _ => bad "C06.tipfile fields"
   | _, _ => bad ("C06: unknown op " ++ op)
 
 end Gotree.Driver.C06
